@@ -409,7 +409,7 @@ pub fn rule_text(family: Family) -> &'static str {
         Family::C01 => "proptest-generated client programs (1-4 clients, send/call/ping through all six handle kinds, conversions, timers as extra traffic, mailbox unbounded or bounded 0..3) x schedule bytes, executed on the deterministic simulation executor; non-trivial = the executed history contains at least one pair (m1,m2) with submission(m1) completed before submission(m2) began, both handled, that differ in client or in submission path (waiting vs. forcing); distinct = hash of the generated case (program + schedule)",
         Family::C02 => "C01 programs plus concurrent calls, restart requests and one termination cause (client stop/halt/drop, started Err/panic - also of the second incarnation -, k-th handler panic, stopped panic, fail_on_timeout, cancellation of the actor task before its j-th poll) at a generated position; non-trivial = two calls on the same actor in flight at the same time, or an operation pending at the moment the actor task ended; distinct = hash of the generated case",
         Family::C03 => "client programs over plain and stream-attached actors x restart strategy {default, recreate, non-restartable} x mailbox kind, with stop through every entry point, ctx.stop/ctx.restart in handlers, restarts, last-handle drops, stream feed/end, started errors; oracle = per-actor acceptor automaton over callback events; non-trivial = a processed restart, or a termination with a payload (accepted send or created tick) still queued; distinct = hash of the generated case",
-        Family::C04 => "C01 programs in which 2-4 clients race stop requests (stop, halt, try_stop, try_halt, consume, ctx.stop in a handler) with submissions, plus awaiters (await of a clone, halt, join) before and after termination; non-trivial = a message accepted before the first stop request and a message submitted after an accepted stop returned in the same run, or an awaiter created after termination; distinct = hash of the generated case",
+        Family::C04 => "C01 programs in which 2-4 clients race stop requests (stop, halt, try_stop, try_halt, consume, ctx.stop in a handler) with submissions (also calls whose future is dropped after 1-4 polls: accepted, so handled in FIFO order and drained), plus awaiters (await of a clone, halt, join) before and after termination; non-trivial = a message accepted before the first stop request and a message submitted after an accepted stop returned in the same run, or an awaiter created after termination; distinct = hash of the generated case",
         Family::C05 => "handle-manipulation programs (clone, downgrade, upgrade, all conversions through the Addr methods and the From impls, weak handles obtained from the actor's own context, give to another client, drop) interleaved with submissions, on plain, registered and stream-attached actors, with timers (incl. a delayed_exec task that keeps running) and broker subscriptions active; the harness keeps a model count of strong handles; non-trivial = the last strong handle was dropped by the clients (before teardown) with a message still queued or a timer/subscription active, or a weak upgrade was attempted after it; distinct = hash of the generated case",
         Family::C06 => "base programs (target T - plain, registered service or stream-attached - with timers, 0-3 children; bystander B that calls T; 1-3 clients) for each of which the single-fault space is enumerated exhaustively from the positions of its fault-free run: started Err / started panic (also of a later incarnation) / k-th handler invocation panics (every k) / stopped panics / finished panics (stream-attached T) / fail_on_timeout per handler duration / cancellation of T's task before its j-th poll (every j); evaluations counts fault runs; non-trivial = the fault took T down while an operation on T was pending or while T held children or timers; distinct = hash of (program, fault)",
         Family::C07 => "client programs with restart requests through Addr::restart and Context::restart at any position, strategy {default, recreate, non-restartable}, timers registered in started and in handlers, optional started error in incarnation >= 1; non-trivial = a processed restart with an accepted message before the request, or with a timer registered before it; distinct = hash of the generated case",
@@ -418,9 +418,9 @@ pub fn rule_text(family: Family) -> &'static str {
         Family::C10 => "0-4 timers of kinds interval / interval_with / delayed_send / delayed_exec (period/delay 1..50 virtual ticks) registered in started or in handlers, both mailbox kinds, mostly sleeping clients, restart requests to non-restartable actors (ignored), non-fatal handler timeouts that abandon a tick handler, termination by stop/halt/drop or failure at any virtual time; non-trivial = some timer fired at least twice and the actor terminated with a timer still pending; distinct = hash of the generated case",
         Family::C11 => "timeout t in 1..100 ticks (sometimes 1000..2500) or none, fail_on_timeout in {false,true} (also without any timeout), both mailbox kinds, messages whose handler duration is t-1, t+1, << t, >> t (never = t; up to 2600 ticks when no timeout is configured), split into 1-3 sleeps, with further messages queued behind; non-trivial = a completed and an abandoned invocation in the same run with a message handled after them; distinct = hash of the generated case",
         Family::C12 => "bounded(0..4) (and some unbounded) mailboxes, 1-4 clients sending through Addr, Sender, WeakSender mixed with forcing traffic (call, ping, interval, stop), handler durations 0..6 ticks, sometimes one message of 3000-9000 ticks (seconds of congestion) or a flood of 90 sends; oracle = at every send-return stamp the number of returned-but-not-taken-out messages is <= n; non-trivial = at least one send was really blocked (pending polls > 0) and later returned Ok; distinct = hash of the generated case",
-        Family::C13 => "stream-attached actors (spawn_on_stream / builder, both mailbox kinds) on a harness-scripted stream (fed in bursts by client ops, ended or never-ending) with messages, stop, drops; both outcomes of the select! tie-break are accepted; non-trivial = an item and a message handled in the same run and a termination while the stream was still pending; distinct = hash of the generated case",
+        Family::C13 => "stream-attached actors (spawn_on_stream / builder, both mailbox kinds) on a harness-scripted stream (fed in bursts by client ops, ended or never-ending) with messages (also calls abandoned after their first poll), stop, drops; both outcomes of the select! tie-break are accepted; non-trivial = an item and a message handled in the same run and a termination while the stream was still pending; distinct = hash of the generated case",
         Family::C14 => "histories that vary who awaits the address and when relative to the termination (never / before / after), termination cause (stop, ctx.stop, handler panic, started error, cancellation), handle queried (Addr, clones, WeakAddr), followed by sequential registry reactions (from_registry, register, try_from_registry); non-trivial = a liveness query or a registry reaction after a termination that nobody awaited; distinct = hash of the generated case",
-        Family::C15 => "grants and conversion/drop programs (Addr methods and From impls alternately, weak handles exported from the actor's own context) leaving any non-empty combination of strong kinds {Addr, OwningAddr, Sender, Caller} alive (a second actor checks identity), default and recreate-from-default strategies, then ctx.stop/ctx.restart messages, interval timers judged per incarnation, upgrades of all weak kinds; non-trivial = a context operation, a weak upgrade or a due tick was checked while no Addr/OwningAddr existed; distinct = hash of the generated case",
+        Family::C15 => "grants and conversion/drop programs (Addr methods and From impls alternately, weak handles exported from the actor's own context) leaving any non-empty combination of strong kinds {Addr, OwningAddr, Sender, Caller} alive (a second actor checks identity), default and recreate-from-default strategies, then ctx.stop/ctx.restart messages, client stops and awaits, interval timers judged per incarnation, upgrades of all weak kinds (also after termination); non-trivial = a context operation, a weak upgrade or a due tick was checked while no Addr/OwningAddr existed; distinct = hash of the generated case",
         Family::C16 => "actor trees up to depth 3 / 6 nodes built in started (add_child / register_child under two message types, some children also held outside, some with interval timers of their own), broadcasts through send_to_children followed by direct messages to children, root termination by stop, drop, ctx.stop, started Err/panic, handler panic, stopped panic, cancellation; non-trivial = depth >= 2 with a broadcast and a non-graceful parent end; distinct = hash of the generated case",
         Family::C17 => "owning spawns (spawn_owning, builder, default, on stream) with join, repeated joins, consume, consume_sync, detach, to_addr mixed with submissions from other clients and every termination cause incl. faults; non-trivial = a join racing with an in-flight submission of another client, or a second join; distinct = hash of the generated case",
     }
